@@ -50,6 +50,9 @@ type StatusCall struct {
 	Rcpt      string   `json:"rcpt"`
 	D         Decision `json:"d"`
 	AfterRead bool     `json:"after_read,omitempty"`
+	// Gate: park on the gate "data<ordinal>:status<i>" before making the call
+	// (a slow delivery to this recipient; the harness owns when it goes on).
+	Gate bool `json:"gate,omitempty"`
 }
 
 // DataPlan scripts one Data / LMTPData call.
@@ -570,8 +573,11 @@ func (s *session) deliver(cb string, r io.Reader, sc smtp.StatusCollector) (err 
 	}
 	readMessage(r, plan.Read, rec)
 	if sc != nil {
-		for _, st := range plan.Status {
+		for i, st := range plan.Status {
 			if st.AfterRead {
+				if st.Gate {
+					b.waitGate(fmt.Sprintf("data%d:status%d", ord, i))
+				}
 				sc.SetStatus(st.Rcpt, st.D.Err())
 				rec.StatusSet = append(rec.StatusSet, st.Rcpt)
 			}
